@@ -73,7 +73,11 @@ def gen_layout(seed, idx):
     t1 = max(r[1] for r in rows) + rng.choice([0, 2]) * unit
     cuts = gen.gen_cuts(rng, rows, t0, t1, unit, max_inner=4)
     rechunk = unit == 400 and rng.random() < 0.7
-    return {"rows": rows, "cuts": cuts, "unit": unit, "t0": t0, "t1": t1, "rechunk": rechunk,
+    cuts2 = None
+    if rng.random() < 0.25:
+        # a second stored data type of the same kind (same rows, other field) with its OWN chunk layout
+        cuts2 = gen.gen_cuts(rng, rows, t0, t1, unit, max_inner=4)
+    return {"rows": rows, "cuts": cuts, "cuts2": cuts2, "unit": unit, "t0": t0, "t1": t1, "rechunk": rechunk,
             "target_rows": rng.choice([1, 2, 3]), "processor": rng.choice(["single_thread", "threaded_mailbox"]),
             "two_targets": rng.random() < 0.4, "seed": rng.randint(0, 10 ** 6)}
 
@@ -83,7 +87,10 @@ def build_spec(lay):
            "chunk_target_size_mb": (lay["target_rows"] * 24 + 12) / 1e6}
     r1 = {"name": "r1", "type": "row", "deps": ["ev"], "c": 1, "field": "v1", "rechunk_on_save": lay["rechunk"],
           "chunk_target_size_mb": ((lay["target_rows"] + 1) * 24 + 12) / 1e6}
-    return {"sources": [src], "plugins": [r1]}
+    srcs = [src]
+    if lay.get("cuts2"):
+        srcs.append({"name": "e2", "kind": "ev", "rows": lay["rows"], "cuts": lay["cuts2"], "field": "v2", "rechunk_on_save": False})
+    return {"sources": srcs, "plugins": [r1]}
 
 
 def ref_filter(full, a, b, mode, sel, keep, drop):
@@ -119,6 +126,8 @@ def run_layout(lay, quick):
 
     def add(kind, what, q, exc=None):
         sig = {"kind": kind, "mode": q.get("mode"), "range_kind": q.get("rk")}
+        if lay.get("cuts2") and sorted(set(lay["cuts2"])) != sorted(set(lay["cuts"])):
+            sig["unaligned_two_targets"] = True
         if exc is not None:
             sig.update(common.exc_sig(exc))
         if len(viol) < 10:
@@ -132,14 +141,19 @@ def run_layout(lay, quick):
         with common.quiet():
             st.make("0", "r1", progress_bar=False)
         targets = ("ev", "r1") if lay["two_targets"] else ("ev",)
+        if lay.get("cuts2"):
+            with common.quiet():
+                st.make("0", "e2", progress_bar=False)
+            targets = ("ev", "e2")
+            cnt["independent_layout_pairs"] = cnt.get("independent_layout_pairs", 0) + 1
         tg = targets if len(targets) > 1 else targets[0]
         with common.quiet():
             full = st.get_array("0", tg, progress_bar=False)
         md = st.get_metadata("0", "ev")
         chunk_bounds = sorted({c["start"] for c in md["chunks"]} | {c["end"] for c in md["chunks"]})
         run_start, run_end = md["chunks"][0]["start"], md["chunks"][-1]["end"]
-        if lay["two_targets"]:
-            md2 = st.get_metadata("0", "r1")
+        if len(targets) > 1:
+            md2 = st.get_metadata("0", targets[1])
             chunk_bounds = sorted(set(chunk_bounds) | {c["start"] for c in md2["chunks"]} | {c["end"] for c in md2["chunks"]})
         nstored = len(md["chunks"])
         before = listing(d)
@@ -210,7 +224,7 @@ def run_layout(lay, quick):
             want, names = ref_filter(full, ra, rb, mode, sel_fn, q.get("keep"), q.get("drop"))
             overlaps_chunk = (not ranged) or (a < run_end and b > run_start)
             cnt["queries"] = cnt.get("queries", 0) + 1
-            if lay["two_targets"]:
+            if len(targets) > 1:
                 cnt["two_target_queries"] = cnt.get("two_target_queries", 0) + 1
             try:
                 with common.quiet():
